@@ -11,6 +11,7 @@ import (
 	"runtime"
 	"sync"
 	"testing/synctest"
+	"time"
 	"unsafe"
 
 	"verif/zsim"
@@ -97,12 +98,16 @@ func (m *Mutex) Lock() {
 		// The root goroutine runs while every task is parked or gone; real
 		// goroutines of the code under test (flush loops) may hold the mutex for
 		// a moment. If it does not come free while they run to their next
-		// blocking point, it never will.
+		// blocking point - and, for a holder that sleeps inside a slow device,
+		// while the bubble's clock moves on -, it never will.
 		for i := 0; i < 100; i++ {
 			if m.mu.TryLock() {
 				return
 			}
 			synctest.Wait()
+			if i >= 10 {
+				time.Sleep(time.Second)
+			}
 		}
 		zsim.RootLockStuck("a sync.Mutex")
 	}
